@@ -87,7 +87,17 @@ type Table struct {
 	Region                            string
 	// FailReads / FailWrites > 0 make that many following reads / writes fail with a service error
 	FailReads, FailWrites int
+	// WriteFault selects what an injected write failure looks like: "" = the service answers with an internal error
+	// and nothing is written; "timeout-lost" = the request times out before it reaches the table; "timeout-applied" =
+	// the write is applied (if its condition allows) but the response is lost, so the client sees a time-out.
+	WriteFault string
+	// OnWriteFault runs (outside the table's lock) after an injected write failure was decided and before the failing
+	// call returns: what other clients of the table do in the meantime.
+	OnWriteFault func()
 }
+
+// ErrTimeout is the error code of a request that timed out; the adapters turn it into the SDK's time-out error.
+const ErrTimeout = "RequestTimeout"
 
 // NewTable creates an empty table called name.
 func NewTable(name string) *Table {
@@ -192,12 +202,29 @@ func (t *Table) Get(table string, k map[string]AV, proj string, names map[string
 // Put implements PutItem with an optional condition expression.
 func (t *Table) Put(table string, item map[string]AV, cond string, names map[string]string) error {
 	t.mu.Lock()
-	defer t.mu.Unlock()
 	t.Puts++
 	if t.FailWrites > 0 {
 		t.FailWrites--
-		return &Error{"InternalServerError", "injected write failure"}
+		kind, hook := t.WriteFault, t.OnWriteFault
+		var ferr error = &Error{"InternalServerError", "injected write failure"}
+		switch kind {
+		case "timeout-lost":
+			ferr = &Error{ErrTimeout, "request timed out before it reached the table"}
+		case "timeout-applied":
+			_ = t.putLocked(table, item, cond, names)
+			ferr = &Error{ErrTimeout, "response lost"}
+		}
+		t.mu.Unlock()
+		if hook != nil {
+			hook()
+		}
+		return ferr
 	}
+	defer t.mu.Unlock()
+	return t.putLocked(table, item, cond, names)
+}
+
+func (t *Table) putLocked(table string, item map[string]AV, cond string, names map[string]string) error {
 	if err := t.checkTable(table); err != nil {
 		return err
 	}
@@ -330,6 +357,13 @@ func (t *Table) Query(table, keyCond string, names map[string]string, values map
 		out = append(out, it)
 	}
 	return out, nil
+}
+
+// SetWriteFault selects the kind of injected write failures and what runs while one is in flight.
+func (t *Table) SetWriteFault(kind string, meanwhile func()) {
+	t.mu.Lock()
+	t.WriteFault, t.OnWriteFault = kind, meanwhile
+	t.mu.Unlock()
 }
 
 // SetFail arms read and write failures.
